@@ -357,4 +357,9 @@ def catalogue():
     P.order = ['a', 'b']
     P.tasks = {'a': {'succ': [{'to': 'b'}]}, 'b': {}}
     out.append(('chain2', P))
+    # a task whose only transition is the engine command noop
+    P = Program()
+    P.order = ['a']
+    P.tasks = {'a': {'succ': [{'to': 'noop'}]}}
+    out.append(('cmd_noop', P))
     return out
